@@ -237,6 +237,35 @@ def check_sem_labels(run):
             if code == "P0003":
                 ok = dname is not None and sl.lower() == dname.lower()
                 want = "the structure's name %r" % dname
+                # "First use of name" is the first element of that name in the structure, "Second use of name" a later one;
+                # every repeated element has its own diagnostic
+                seconds = []
+                for dd in ds:
+                    sec = [tuple(x) for x in dd.get("secondary", [])]
+                    if not ok or len(sec) != 2:
+                        ok = ok and len(sec) == 2
+                        want = "the structure's name with two secondary labels"
+                        break
+                    nm = b[sec[1][1]:sec[1][2]].decode("utf-8", "replace")
+                    l1, l2 = b.count(b"\n", 0, sec[0][1]), b.count(b"\n", 0, sec[1][1])
+                    hdr = next((x for x in range(len(tl)) if re.match(r"\s*%s\s*:\s*STRUCT\b" % re.escape(dname), tl[x], re.I)), None)
+                    uses = []
+                    if hdr is not None:
+                        x = hdr + 1
+                        while x < len(tl) and not re.match(r"\s*END_STRUCT\b", tl[x], re.I):
+                            if re.match(r"\s*%s\s*:" % re.escape(nm), tl[x], re.I):
+                                uses.append(x)
+                            x += 1
+                    if (len(uses) < 2 or l1 != uses[0] or l2 not in uses[1:] or
+                            b[sec[0][1]:sec[0][2]].decode("utf-8", "replace").lower() != nm.lower()):
+                        ok = False
+                        want = "the structure's name, with 'First use' on the first element named %r (line %d) and 'Second use' on a later " \
+                               "one (lines %r); the labels are on lines %d and %d" % (nm, (uses[0] + 1) if uses else 0, [u + 1 for u in uses[1:]], l1 + 1, l2 + 1)
+                        break
+                    seconds.append(l2)
+                if ok and len(set(seconds)) != len(seconds):
+                    ok = False
+                    want = "one diagnostic per repeated element (second uses on lines %r)" % ([x + 1 for x in seconds],)
             elif code == "P0018":
                 g = what.split("constant global ")[1].split(" ")[0]
                 ok = sl.lower() == g.lower() and lo <= line <= hi
